@@ -291,7 +291,8 @@ class Lexer:
             if char is not None and char in "+-":
                 self._position += 1
 
-            self._read_over_integer()
+            # ExponentPart :: ExponentIndicator Sign? Digit+ (leading zeros allowed)
+            self._read_over_digits()
 
         # Explicit lookahead restrictions.
         try:
